@@ -253,6 +253,15 @@ func runC19(s *core.Sim, tier string) RunInfo {
 				late = 1 + s.Tape.Draw("late-callers", 3)
 				s.Probe("head-waiter-gave-up-late-callers-joined")
 			}
+			// variant: the caller that owns the request gives up while others wait for its result: the
+			// request dies with it and they share that outcome - nobody starts a request of their own
+			leaderGaveUp := false
+			if late == 0 && !recent && !expired && farFromExpiry && n >= 2 && (script == "fresh" || script == "lower" || script == "error") &&
+				s.Tape.Coin("leader-gives-up", 1, 4) {
+				leaderGaveUp = true
+				impatient[0] = true
+				s.Probe("head-leader-gave-up")
+			}
 			results := make([]res, n+late)
 			var tasks []*core.Task
 			startCaller := func(j int) {
@@ -266,7 +275,7 @@ func runC19(s *core.Sim, tier string) RunInfo {
 					results[j].h, results[j].err = w.Sy.Head(c)
 				}))
 			}
-			if late > 0 {
+			if late > 0 || leaderGaveUp {
 				startCaller(0)
 				s.Quiesce(0) // caller 0 owns the request in flight
 				for j := 1; j < n; j++ {
@@ -338,6 +347,9 @@ func runC19(s *core.Sim, tier string) RunInfo {
 				if len(headCalls) != 1 {
 					s.Violate("head-request-count", map[string]string{"state": state, "count": fmt.Sprint(len(headCalls))}, "stale subjective head %d: %d concurrent callers caused %d head requests, want exactly 1 [%v]", accepted, n, len(headCalls), hist)
 					break
+				}
+				if leaderGaveUp {
+					break // (whatever the abandoned request came to is what they all got)
 				}
 				if headCalls[0].Trusted != accepted {
 					s.Violate("head-request-not-verified", at, "the head request carried TrustedHead=%d, the subjective head is %d", headCalls[0].Trusted, accepted)
